@@ -257,6 +257,8 @@ def obs_to_coq(ob):
     if t == "bool":
         return "BBool %s" % cbool(ob[1])
     if t == "stats":
+        if any(isinstance(x, int) and x < 0 for x in ob[1:6]):
+            return "BCode CNil"        # a negative counter: no model answer can equal it (the mismatch is then reported with this step)
         return "BStats %s %s %s %s %s" % tuple(cN(x) for x in ob[1:6])
     if t == "len":
         return "BLen %s %s" % (cN(ob[1]), cN(ob[2]))
